@@ -264,6 +264,8 @@ def build(configs=CONFIGS_QUICK, docs=None, release=False):
             os.makedirs(tmp_dir)
             tmp = os.path.join(tmp_dir, cfg + '.rs')
             entries = [os.path.join(idl_dir, d.name + '.thrift') for d in docs if gengen.doc_in_config(d.configs, cfg)]
+            if not entries:
+                continue            # no document of this corpus opts into the configuration
             rc, log = core.sh(['timeout', '600', genbin, cfg, tmp] + entries, env=dict(env, RUST_BACKTRACE='0'), timeout=630)
             if rc != 0 or not os.path.exists(tmp):
                 gb.error = 'pilota-build failed on the corpus (%s): %s' % (cfg, '\n'.join(
@@ -317,6 +319,8 @@ def build(configs=CONFIGS_QUICK, docs=None, release=False):
                          'pub fn dispatch(cfg: &str, ty: &str, c: &Case) -> Option<String> {\n    match (cfg, ty) {\n'
                          + '\n'.join(arms) + '\n        _ => None,\n    }\n}\n')
         write_if_changed(os.path.join(out, 'schema.txt'), gengen.schema_txt(sch))
+        # the rir types with their Arc wrappers (C19: the runner marks Arc boxes for the ownership model; C20 writes the same text)
+        write_if_changed(os.path.join(out, 'lschema.txt'), gengen.lschema_txt(sch))
         write_if_changed(os.path.join(out, 'names.json'), json.dumps(gb.names, indent=0, sort_keys=True))
         # 4. the driver
         gb.stage = 'cargo build pv-harness-gen (emitted code + driver)'
